@@ -119,7 +119,7 @@ def run(rep):
     validators(rep, pkr, skr)
     # ---- canonical leaves
     entries = decode_entry_points(prog)
-    rep.floor("decode entry points", len(entries), 150)
+    rep.floor("decode entry points", len(entries), 300)
     reach = reachable_local(prog, entries)
     nleaf = 0
     for b in reach.values():
